@@ -437,3 +437,104 @@ def rule_deepest_first(db, chk, cfg, rule="OWNER.deepest-first"):
         chk.violation(rule, f.qual, "outrec->owner=split", "CheckSplitOwner can make `split` the owner without having searched split->splits first: a polygon "
                       "inside a split of a split is attached one level too high (wrong depth / IsHole alternation in the PolyTree)", where(cl.bad[0]), cfg=cfg)
     return 1
+
+
+def rule_splits_append_only(db, chk, cfg, rule="SPLITS.append-only"):
+    """OutRec::splits records which contours were split off a contour; the owner search (CheckSplitOwner) can only find a parent that is
+    still listed.  The lists therefore only grow: a list is created where there was none, entries are appended, and the only list that
+    may be emptied is one whose entries have just been appended to another list (MoveSplits).  Overwriting, swapping or erasing loses
+    parents: islands end up attached to the wrong contour."""
+    READ_ONLY = {"begin", "end", "cbegin", "cend", "size", "empty", "front", "back", "operator[]", "at"}
+    n = 0
+    for f in db.funcs:
+        if f.body is None or f.is_pattern or not (f.file or "").endswith(("clipper.engine.cpp", "clipper.engine.h")):
+            continue
+        par = {}
+        for x in walk(f.body):
+            for c in kids(x):
+                if isinstance(c, dict):
+                    par[id(c)] = x
+        body_txt = None
+        for x in walk(f.body):
+            k = x.get("kind")
+            # (1) pointer assignments  X->splits = ...
+            if k == "BinaryOperator" and x.get("opcode") == "=":
+                l = _u(kids(x)[0])
+                if l.get("kind") == "MemberExpr" and l.get("name") == "splits" and "OutRecList" in qt(l) or \
+                        (l.get("kind") == "MemberExpr" and l.get("name") == "splits" and "vector<" in dqt(l)):
+                    owner = canon(kids(l)[0]) if kids(l) else "this"
+                    r = _u(kids(x)[1])
+                    n += 1
+                    ok = False
+                    why = ""
+                    if r.get("kind") in ("CXXNullPtrLiteralExpr", "GNUNullExpr"):
+                        ok = f.name == "NewOutRec" or f.kind in ("CXXConstructorDecl",)
+                        why = "sets an existing list pointer to null outside NewOutRec"
+                    elif r.get("kind") == "CXXNewExpr":
+                        # fresh OutRec created in this function, or guarded by `if (!X->splits)`
+                        fresh = any(d.get("kind") == "VarDecl" and d.get("name") == owner and any(
+                            y.get("kind") in ("CXXMemberCallExpr", "CallExpr") and db.callee(y)[0] == "NewOutRec" for y in walk(d)) for d in walk(f.body))
+                        guarded = False
+                        p = par.get(id(x))
+                        while p is not None:
+                            if p.get("kind") == "IfStmt":
+                                c0 = canon(if_parts(p)[0])
+                                if c0 in ("(!%s->splits)" % owner, "(%s->splits == nullptr)" % owner, "(!%s.splits)" % owner):
+                                    guarded = True
+                                break
+                            p = par.get(id(p))
+                        ok = fresh or guarded
+                        why = "replaces the list of an existing OutRec without testing that it has none"
+                    else:
+                        why = "assigns %s" % canon(r)[:40]
+                    chk.instance(rule, {"function": f.qual, "write": canon(x)[:60], "cfg": cfg}, ok=ok)
+                    if not ok:
+                        chk.violation(rule, f.qual, "ptr|" + canon(x)[:50], "`%s` %s: entries recorded so far are lost to the owner search" % (canon(x)[:70], why),
+                                      where(x), cfg=cfg)
+            # (2) member calls on a splits list
+            if k == "CXXMemberCallExpr":
+                base = db.member_base(x)
+                if base is None:
+                    continue
+                b = _u(base)
+                if not (b.get("kind") == "MemberExpr" and b.get("name") == "splits"):
+                    continue
+                m = db.callee(x)[0]
+                owner = canon(kids(b)[0]) if kids(b) else "this"
+                n += 1
+                ok = m in READ_ONLY or m in ("emplace_back", "push_back")
+                why = "calls %s() on a splits list" % m
+                if m == "clear":
+                    # allowed only after every entry has been appended to another splits list in the same function
+                    loops = [y for y in walk(f.body) if y.get("kind") in ("ForStmt", "CXXForRangeStmt", "WhileStmt")]
+                    moved = False
+                    for lp in loops:
+                        lt = canon(lp)
+                        hdr = " ".join(canon(z) for z in kids(lp)[:-1] if isinstance(z, dict) and z.get("kind"))
+                        reads_src = ("%s->splits" % owner) in lt
+                        appends = [y for y in walk(kids(lp)[-1]) if y.get("kind") == "CXXMemberCallExpr" and db.callee(y)[0] in ("emplace_back", "push_back")
+                                   and db.member_base(y) is not None and _u(db.member_base(y)).get("name") == "splits"
+                                   and canon(kids(_u(db.member_base(y)))[0]) != owner]
+                        if reads_src and appends:
+                            moved = True
+                    ok = moved
+                    why = "empties the list of %s although its entries were not appended to another list first" % owner
+                chk.instance(rule, {"function": f.qual, "call": canon(x)[:60], "cfg": cfg}, ok=ok)
+                if not ok:
+                    chk.violation(rule, f.qual, "call|" + canon(x)[:50], "`%s` %s: the lists only grow (the owner search needs every recorded split)"
+                                  % (canon(x)[:70], why), where(x), cfg=cfg)
+            # (3) whole-list assignment / swap through the pointer
+            if k == "CXXOperatorCallExpr" and db.callee(x)[0] == "operator=":
+                a0 = _u(kids(x)[1]) if len(kids(x)) > 1 else {}
+                if a0.get("kind") == "UnaryOperator" and a0.get("opcode") == "*" and _u(kids(a0)[0]).get("name") == "splits":
+                    n += 1
+                    chk.instance(rule, {"function": f.qual, "assign": canon(x)[:60], "cfg": cfg}, ok=False)
+                    chk.violation(rule, f.qual, "assign|" + canon(x)[:50], "`%s` overwrites a whole splits list: whatever the destination had recorded is lost to the "
+                                  "owner search (append instead)" % canon(x)[:80], where(x), cfg=cfg)
+            if k == "CallExpr" and db.callee(x)[0] in ("swap", "iter_swap") and "splits" in canon(x):
+                n += 1
+                chk.instance(rule, {"function": f.qual, "swap": canon(x)[:60], "cfg": cfg}, ok=False)
+                chk.violation(rule, f.qual, "swap|" + canon(x)[:50], "`%s` exchanges splits lists" % canon(x)[:80], where(x), cfg=cfg)
+    if n < 10:
+        raise AnalysisBroken("SPLITS.append-only: only %d accesses to OutRec::splits recognised" % n)
+    return n
